@@ -213,9 +213,11 @@ Fixpoint all_uint8 (l : list bval) : option bytes :=
 Definition as_bytes_field (v : bval) : option bytes :=
   match v with BStr s => Some s | BList l => all_uint8 l | _ => None end.
 
-(* library quirk: an empty list decoded into a []byte field leaves the field as it was (seen with a
-   repeated key: 5:added6:...  5:addedle keeps the first value) *)
-Definition is_empty_list (v : bval) : bool := match v with BList [] => true | _ => false end.
+(* library quirk: a list decoded into a []byte field that already holds a value is written over it
+   element by element: the first len(list) bytes change, the others stay (seen with a repeated key:
+   5:added6:......  5:addedli0ei63ee keeps bytes 3..6 of the first value; an empty list changes nothing) *)
+Definition is_list (v : bval) : bool := match v with BList _ => true | _ => false end.
+Definition overlay (new old : bytes) : bytes := new ++ skipn (length new) old.
 
 Fixpoint bytes_eqb (a b : bytes) : bool :=
   match a, b with
